@@ -621,6 +621,25 @@ func allSources(v ssa.Value, pred func(ssa.Value) bool) bool {
 		if pred(x) {
 			return true
 		}
+		// a field of a struct carried in a local variable / a struct value: the values that field may hold
+		if al, idx, ok := localFieldLoad(x); ok {
+			srcs := localStructFieldSources(al, idx, 0)
+			for _, sv := range srcs {
+				if !walk(sv, depth+1) {
+					return false
+				}
+			}
+			return len(srcs) > 0
+		}
+		if fx, ok := x.(*ssa.Field); ok {
+			srcs := structValueFieldSources(fx.X, fx.Field, 0)
+			for _, sv := range srcs {
+				if !walk(sv, depth+1) {
+					return false
+				}
+			}
+			return len(srcs) > 0
+		}
 		switch t := x.(type) {
 		case *ssa.Phi:
 			for _, e := range t.Edges {
